@@ -16,7 +16,7 @@
   Second half (aliasing): *partial by nature* — see §3.
 -/
 import GraphiqModel.Proofs.Wire
-import GraphiqModel.Proofs.CommuteSem
+import GraphiqModel.Proofs.CommuteCircuit
 namespace Graphiq.C13
 open Graphiq Graphiq.Wire
 
@@ -133,6 +133,80 @@ theorem rewrite_preserves_compiled_group (c c' : Circuit) (hgood : c.Good) (h : 
   have h2 := congrArg Subtype.val this
   rw [Commute.runSeq_appG_val, Commute.runSeq_appG_val] at h2
   exact h2
+
+/-! ## 2c. the compile loop of the stabilizer backend refines that semantics
+
+  `stabRun` / `stepOp` (Model/Circuit.lean) is the function-by-function model of `CompilerBase.compile` +
+  `StabilizerCompiler.compile_one_gate` that C01 compares with the real compiler on every run.  Each of its steps, under
+  every measurement setting (`Det`: forced 0, forced 1, probabilistic with a drawn script), acts on the stabilizer group of
+  the tableau as `appRaw` does with the outcome the step recorded; so the theorems of §2b are theorems about the tableaux
+  the compile loop produces. -/
+
+/-- **the stabilizer compile loop refines the group semantics**: if the loop runs the compile sequence of a sane circuit
+    (along any node order `seq`, under any measurement setting and drawn script) to the state `s'`, then the tableau stays
+    valid and the group semantics, run on the outcome streams made of the outcomes `s'.outs` the loop recorded, is possible
+    and ends in exactly the stabilizer group of the final tableau, with all outcomes read -/
+theorem compile_loop_refines_stabilizer_semantics (c : Circuit) (hgood : c.Good) (har : Commute.ArityOk c) (seq : List Nat)
+    (d : Det) (script : List Bool) (s' : RunState)
+    (h : stabRun c.ne c.np d script ((c.sops seq).map Commute.toCOp) = some s') :
+    s'.t.Valid ∧ ∀ sc, runSeq (Commute.appRaw c.ne c.np) (c.sops seq)
+        (some (TabSpec.gstate (Tab.ket0 (c.ne + c.np)), Commute.feed c.ne c.np (c.sops seq) s'.outs sc)) =
+      some (TabSpec.gstate s'.t, sc) :=
+  ⟨(Commute.stabRun_refines c hgood har seq d script s' h).1.valid, (Commute.stabRun_refines c hgood har seq d script s' h).2⟩
+
+/-- **the tableau the stabilizer backend compiles to does not depend on the topological order**: two runs of the compile
+    loop on the same sane circuit, along any two linear extensions of its DAG, under any measurement settings and scripts, in
+    which every measuring operation recorded the same outcome (`hout`: the per-register outcome streams agree), end in
+    tableaux with the same signed stabilizer group -/
+theorem compiled_tableau_independent_of_topological_order (c : Circuit) (hgood : c.Good) (har : Commute.ArityOk c)
+    (seq1 seq2 : List Nat) (hl1 : c.isLinearExtension seq1 = true) (hl2 : c.isLinearExtension seq2 = true)
+    (d1 d2 : Det) (script1 script2 : List Bool) (s1 s2 : RunState)
+    (h1 : stabRun c.ne c.np d1 script1 ((c.sops seq1).map Commute.toCOp) = some s1)
+    (h2 : stabRun c.ne c.np d2 script2 ((c.sops seq2).map Commute.toCOp) = some s2)
+    (hout : Commute.feed c.ne c.np (c.sops seq1) s1.outs (fun _ => []) =
+      Commute.feed c.ne c.np (c.sops seq2) s2.outs (fun _ => [])) :
+    ∀ P, TabSpec.Grp s1.t P ↔ TabSpec.Grp s2.t P := by
+  have r1 := (Commute.stabRun_refines c hgood har seq1 d1 script1 s1 h1).2 (fun _ => [])
+  have r2 := (Commute.stabRun_refines c hgood har seq2 d2 script2 s2 h2).2 (fun _ => [])
+  have e := compile_independent_of_topological_order_stab c.ne c.np c hgood seq1 seq2 hl1 hl2
+    (Commute.GSt.init c.ne c.np (Commute.feed c.ne c.np (c.sops seq1) s1.outs (fun _ => [])))
+  have e' := congrArg Subtype.val e
+  rw [Commute.runSeq_appG_val, Commute.runSeq_appG_val] at e'
+  have e'' : some (TabSpec.gstate s1.t, (fun _ => [] : Commute.Script)) = some (TabSpec.gstate s2.t, fun _ => []) := by
+    rw [← r1, ← r2, ← hout]; exact e'
+  simp only [Option.some.injEq, Prod.mk.injEq, and_true] at e''
+  intro P
+  show (TabSpec.gstate s1.t).G P ↔ (TabSpec.gstate s2.t).G P
+  rw [e'']
+
+/-- **the tableau the stabilizer backend compiles a rewritten circuit to**: the original and the copied / unwrapped /
+    grouped / identity-free / empty-noise-map circuit, each compiled along any topological order under any measurement
+    setting, with every measuring operation recording the same outcome in both runs, end in tableaux with the same signed
+    stabilizer group -/
+theorem rewrite_preserves_compiled_tableau (c c' : Circuit) (hgood : c.Good) (har : Commute.ArityOk c) (h : Rewrites c c')
+    (seq seq' : List Nat) (hl : c.isLinearExtension seq = true) (hl' : c'.isLinearExtension seq' = true)
+    (d d' : Det) (script script' : List Bool) (s s' : RunState)
+    (h1 : stabRun c.ne c.np d script ((c.sops seq).map Commute.toCOp) = some s)
+    (h2 : stabRun c'.ne c'.np d' script' ((c'.sops seq').map Commute.toCOp) = some s')
+    (hout : Commute.feed c.ne c.np (c.sops seq) s.outs (fun _ => []) =
+      Commute.feed c'.ne c'.np (c'.sops seq') s'.outs (fun _ => [])) :
+    ∀ P, TabSpec.Grp s.t P ↔ TabSpec.Grp s'.t P := by
+  have hflat := h.flat_eq hgood
+  have hne : c'.ne = c.ne := by simp only [Circuit.flat, Prod.mk.injEq] at hflat; exact hflat.1
+  have hnp : c'.np = c.np := by simp only [Circuit.flat, Prod.mk.injEq] at hflat; exact hflat.2.1
+  have r1 := (Commute.stabRun_refines c hgood har seq d script s h1).2 (fun _ => [])
+  have r2 := (Commute.stabRun_refines c' (h.good hgood) (Commute.Rewrites.arityOk hgood har h) seq' d' script' s' h2).2
+    (fun _ => [])
+  rw [hne, hnp] at r2
+  rw [hne, hnp] at hout
+  have e := rewrite_preserves_compiled_group c c' hgood h seq seq' hl hl'
+    (Commute.feed c.ne c.np (c.sops seq) s.outs (fun _ => []))
+  have e'' : some (TabSpec.gstate s.t, (fun _ => [] : Commute.Script)) = some (TabSpec.gstate s'.t, fun _ => []) := by
+    rw [← r1, ← r2, ← hout]; exact e.symm
+  simp only [Option.some.injEq, Prod.mk.injEq, and_true] at e''
+  intro P
+  show (TabSpec.gstate s.t).G P ↔ (TabSpec.gstate s'.t).G P
+  rw [e'']
 
 /-! ## 3. library calls do not mutate their inputs -/
 
